@@ -9,7 +9,7 @@ namespace {
 using namespace BaseGraph;
 
 struct Counters {
-    uint64_t bigFiles = 0, largeIndexGraphs = 0, roundTrips = 0, linesParsedIndependently = 0, formatFiles = 0, commentLines = 0, whitespaceRuns = 0, nameFiles = 0, namesChecked = 0, labelReads = 0,
+    uint64_t secondRoundTrips = 0, bigFiles = 0, largeIndexGraphs = 0, roundTrips = 0, linesParsedIndependently = 0, formatFiles = 0, commentLines = 0, whitespaceRuns = 0, nameFiles = 0, namesChecked = 0, labelReads = 0,
              fuzzInputs = 0, fuzzReturned = 0, fuzzThrew = 0, zeroVertexGraphs = 0, noEdgeGraphs = 0, isolatedTails = 0, filesWithoutFinalNewline = 0;
     uint64_t fuzzByExc[6] = {0};
     ObsCounters oc;
@@ -206,7 +206,16 @@ template <template <class...> class GT, class L> void roundtrip(Reporter &R, uin
         ++C.roundTrips;
         R.digest(s.n > 64 ? content : content + snapshot(pr.first));
         err = compareLoaded<GT<L>, L>(pr.first, s, labels, &g);
-        if (!err.empty()) R.violation(cls + "/text-round-trip/" + err.substr(0, err.find_first_of(":(")), err + "; graph " + s.str());
+        if (!err.empty()) { R.violation(cls + "/text-round-trip/" + err.substr(0, err.find_first_of(":(")), err + "; graph " + s.str()); return; }
+        if (sub % 3 == 0) {
+            // a loaded graph is a graph: writing it and loading it again must round-trip as well
+            writeText<GT, L>(pr.first, path);
+            auto pr2 = loadIndexed<GT, L>(path);
+            unlink(path.c_str());
+            ++C.secondRoundTrips;
+            err = compareLoaded<GT<L>, L>(pr2.first, s, labels, &g);
+            if (!err.empty()) R.violation(cls + "/text-round-trip-of-a-loaded-graph/" + err.substr(0, err.find_first_of(":(")), err + "; graph " + s.str());
+        }
     } catch (std::exception &ex) {
         unlink(path.c_str());
         R.violation(cls + "/text-round-trip/threw", std::string("threw ") + ex.what() + "; graph " + s.str());
@@ -493,6 +502,7 @@ template <template <class...> class GT, class L> void fuzz(Reporter &R, uint64_t
 void flush(Reporter &R) {
     C.oc.flush(R);
     R.count("text_round_trips", C.roundTrips);
+    R.count("round_trips_of_a_loaded_graph", C.secondRoundTrips);
     R.count("graphs_with_large_vertex_indices", C.largeIndexGraphs);
     R.count("files_of_thousands_of_lines_round_tripped", C.bigFiles);
     R.count("written_lines_parsed_independently", C.linesParsedIndependently);
